@@ -10,6 +10,7 @@ import (
 	"sort"
 	"strconv"
 	"strings"
+	"sync"
 
 	"github.com/onheap/eval"
 )
@@ -86,8 +87,11 @@ func tv(v interface{}) M {
 
 // sentinel errors raised by the harness' fetchers and operators
 var sentinels = map[string]error{}
+var sentinelMu sync.Mutex
 
 func sentinel(kind string) error {
+	sentinelMu.Lock()
+	defer sentinelMu.Unlock()
 	if e, ok := sentinels[kind]; ok {
 		return e
 	}
@@ -99,6 +103,8 @@ func sentinel(kind string) error {
 // errKind classifies an error: sentinel identity first (errors.Is), then the class of
 // built-in error by its message.
 func errKind(err error) string {
+	sentinelMu.Lock()
+	defer sentinelMu.Unlock()
 	for k, s := range sentinels {
 		if errors.Is(err, s) {
 			return k
